@@ -614,7 +614,11 @@ func TestTieBreakReorg(t *testing.T) {
 		now := time.Now()
 		n.Exec.VerifSetLastBlockReceived(&now)
 		if err := n.Exec.VerifProcess(node.CloneBlock(sib), "peer"); err != nil || !bytes.Equal(n.Tip().Header.ID, sib.Header.ID) {
-			t.Fatalf("valid tie-break sibling did not replace the tip: err=%v\nhistory:\n%s", err, strings.Join(hist, "\n"))
+			why := error(nil)
+			if derr := n.Exec.VerifDeleteBlock(n.Tip(), false); derr == nil {
+				why = n.Exec.VerifProcessValidated(node.CloneBlock(sib), false, false)
+			}
+			t.Fatalf("valid tie-break sibling did not replace the tip: err=%v (applied directly after deleting the tip: %v)\nhistory:\n%s", err, why, strings.Join(hist, "\n"))
 		}
 		twin, err := node.New(withTS(cfg, n))
 		if err != nil {
